@@ -203,8 +203,8 @@ def jobs(tier):
             for b1 in (False, True):
                 add("merge", 2, 2, 8, fl=fl, ffl=ffl, b0=b0, b1=b1)
         add("compress", 2, 2, 6, fl=fl, ffl=ffl)
-    add("islice", 1, 3, 7, fl="agen", ffl="def", form=3, PR=3, p2=2, b0=False, b1=False, b2=False)
-    add("islice", 1, 3, 7, fl="acls", ffl="def", form=3, PR=3, p2=3, b0=False, b1=False, b2=False)
+    add("islice", 1, 2, 5, fl="agen", ffl="def", form=3, PR=2, p2=2, b0=False, b1=False, b2=False)
+    add("islice", 1, 2, 5, fl="acls", ffl="def", form=3, PR=2, p2=2, b0=False, b1=False, b2=False)
     for b0 in (False, True):
         add("merge", 1, 2, 6, fl="agen", ffl="def", b0=b0, b1=True)
         add("merge", 1, 2, 6, fl="acls", ffl="defaw", b0=b0, b1=True)
